@@ -352,7 +352,7 @@ def run_restest_multi(ctx, n, d):
 
 def run(ctx):
     from props import cli_proc
-    cli_proc.stream(ctx, ['C20'])
+    cli_proc.stream(ctx, ['C20', 'C20@restest'])
     rng = ctx.rng
     d = tempfile.mkdtemp(prefix='pffc20')
     try:
